@@ -1,9 +1,21 @@
 (** Correspondence record for C13: one scripted run of the real Runner with a
     scripted input stream, and what the child's stdin / the output stream saw. *)
-From InvokeVerif Require Export Model.StdinModel Spec.C13Spec.
+From InvokeVerif Require Export Model.StdinModel Model.InStreamModel Spec.C13Spec.
+
+(** The input stream was a REAL text stream (not a terminal): its kind, the number of
+    reads before the command finished, and the text its text layer yields (what an
+    independent read of the same file / the same bytes through an identical text
+    layer returns). *)
+Record real_stream := mkReal { r_kind : stream_kind; r_finish_at : nat; r_text : text }.
+
+(** Run-length form in which the harness prints long code-point / byte lists (the
+    long inputs are periodic): [(n, u)] stands for [u] repeated [n] times. *)
+Definition rle (l : list (N * list N)) : list N :=
+  List.concat (map (fun p => List.concat (repeat (snd p) (N.to_nat (fst p)))) l).
 
 Record case := mk {
   c_in : stdin_in;
+  c_real : option real_stream;   (* Some: real stream, the script of [c_in] is not used; None: scripted stream *)
   c_done : bool;          (* run() came back in time *)
   c_close_last : bool;    (* the stdin worker wrote nothing to the child's stdin after closing it *)
   c_silent : bool;        (* nothing was echoed to the stream object the run was NOT told to use *)
@@ -15,13 +27,35 @@ Definition sobs_eqb (a b : stdin_obs) : bool :=
   text_eqb (sb_echo a) (sb_echo b) && Bool.eqb (sb_terminated a) (sb_terminated b) &&
   opt_bytes_eqb (sb_responses a) (sb_responses b).
 
-Definition corr (c : case) : bool := c_done c && c_close_last c && c_silent c && sobs_eqb (stdin_model (c_in c)) (c_obs c).
+Definition with_script (i : stdin_in) (s : list sread) : stdin_in :=
+  mkSin (si_enc i) (si_stream i) (si_echo i) (si_pty i) s (si_responses i).
+
+(** What the model is run on: for a real stream the reads [read_our_stdin] makes on a
+    stream of that kind ([Model.InStreamModel]). *)
+Definition model_in (c : case) : stdin_in :=
+  match c_real c with
+  | None => c_in c
+  | Some r => with_script (c_in c) (real_script (r_kind r) (r_finish_at r) (r_text r))
+  end.
+
+(** What the spec is told about a real stream: the text is on the stream, then
+    end-of-file, and the command finishes at some point -- no reads, no kinds. *)
+Definition whole_text_script (t : text) : list sread :=
+  match t with [] => [] | _ => [SData t] end ++ [SEof; SFinish].
+
+Definition spec_input (c : case) : stdin_in :=
+  match c_real c with
+  | None => c_in c
+  | Some r => with_script (c_in c) (whole_text_script (r_text r))
+  end.
+
+Definition corr (c : case) : bool := c_done c && c_close_last c && c_silent c && sobs_eqb (stdin_model (model_in c)) (c_obs c).
 
 Definition spec_in (i : stdin_in) (o : stdin_obs) : bool :=
   spec_ok (si_enc i) (si_stream i) (si_echo i) (si_pty i) (si_script i) (si_responses i)
           (sb_received o) (sb_closes o) (sb_echo o) (sb_terminated o) (sb_responses o).
 
-Definition spec (c : case) : bool := c_done c && c_close_last c && c_silent c && spec_in (c_in c) (c_obs c).
+Definition spec (c : case) : bool := c_done c && c_close_last c && c_silent c && spec_in (spec_input c) (c_obs c).
 
 (** Encoder validation against CPython's [str.encode]. *)
 Record ecase := mke { e_enc : enc; e_text : text; e_bytes : option bytes }.
